@@ -1997,6 +1997,8 @@ def relative_position_angle(alpha1, delta1, alpha2, delta2):
         da = (a1 - 360.0) - a2
     elif da < -180.0:
         da = a1 - (a2 - 360.0)
+    # (Negative right ascensions may still leave it out of range)
+    da -= 360.0 * round(da / 360.0)
     da = radians(da)
     d1 = delta1.rad()
     d2 = delta2.rad()
